@@ -38,6 +38,65 @@ func c16Run(c *vk.Ctx) {
 			return
 		}
 	}
+	c16AfterExpiry(c, r)
+}
+
+// c16AfterExpiry: a client whose association has expired sends again: the datagram is forwarded
+// on a NEW association, which is reported added, and the datagram is reported on it.
+func c16AfterExpiry(c *vk.Ctx, r *rand.Rand) bool {
+	keys := RandKeys(r, 2, nil, 0)
+	rig := StartUDPRig(keys, UDPRigOpts{NatTimeout: 300 * time.Millisecond})
+	defer rig.Close(5 * time.Second)
+	tgt, err := startUDPTarget("t", net.IPv4(45, 69, byte(c.Batch), 9).To4(), 7001)
+	if err != nil {
+		return true
+	}
+	defer tgt.Stop()
+	for i := 0; i < c.N(3, 10); i++ {
+		k := keys[r.Intn(2)]
+		cl, err := newUDPClient(net.IPv4(198, 51, 100, byte(100+i)).To4(), 0, k)
+		if err != nil {
+			continue
+		}
+		for gen := 1; gen <= 3; gen++ {
+			id := nextID(c.Batch)
+			payload := mkUDPPayload(id, 0, 0, 30+r.Intn(100))
+			pkt := ssUDP(k, randBytes(r, k.Codec().C.SaltSize), tgt.addr(), payload)
+			cl.Send(pkt, rig.Addr4())
+			c.Eval(fmt.Sprintf("after-expiry|generation=%d", gen))
+			if _, ok := tgt.waitID(id, udpB); !ok {
+				c.Violation("C16/datagram-after-expiry-not-forwarded", map[string]any{"generation": gen})
+				cl.Close()
+				return false
+			}
+			as := rig.Rec.ByClient(cl.Addr.String())
+			if len(as) != gen {
+				c.Violation("C16/association-not-reported-added-after-expiry", map[string]any{"associations_reported": len(as), "expected": gen})
+				cl.Close()
+				return false
+			}
+			sn := as[gen-1].Snap()
+			if len(sn.FromClient) != 1 || sn.FromClient[0].Status != "OK" || sn.FromClient[0].A != int64(len(pkt)) || sn.FromClient[0].B != int64(len(payload)) {
+				c.Violation("C16/datagram-after-expiry-not-reported-on-its-association", map[string]any{"reports": fmt.Sprintf("%+v", sn.FromClient)})
+				cl.Close()
+				return false
+			}
+			// wait for the expiry of this association
+			deadline := time.Now().Add(udpB)
+			for len(as[gen-1].Snap().Removed) == 0 && time.Now().Before(deadline) {
+				time.Sleep(5 * time.Millisecond)
+			}
+			if len(as[gen-1].Snap().Removed) != 1 {
+				c.Violation("C16/association-not-reported-removed-exactly-once", map[string]any{"removals": len(as[gen-1].Snap().Removed)})
+				cl.Close()
+				return false
+			}
+			time.Sleep(20 * time.Millisecond)
+		}
+		cl.Close()
+		c.Count("expiry_cycles_reported", 3)
+	}
+	return true
 }
 
 func c16Round(c *vk.Ctx, r *rand.Rand, round int) bool {
@@ -142,7 +201,8 @@ func c16Round(c *vk.Ctx, r *rand.Rand, round int) bool {
 		defer cl.Close()
 		clients = append(clients, &c16Client{cl: cl, sentTo: map[*udpTarget]int{}})
 	}
-	sizeSeq := 20 // unique datagram sizes so that any mix-up between datagrams shows in the numbers
+	dnsBytes := 0.0 // received by the DNS target (not in w.targets)
+	sizeSeq := 20   // unique datagram sizes so that any mix-up between datagrams shows in the numbers
 	nextSize := func() int { sizeSeq += 1 + r.Intn(3); return sizeSeq }
 	type replyExp struct{ tp, pc int64 }
 	steps := c.N(10, 24)
@@ -234,6 +294,33 @@ func c16Round(c *vk.Ctx, r *rand.Rand, round int) bool {
 			c.Eval(fmt.Sprintf("datagram|%s|%s|on-association=%v", kind, k.Cipher, hasAssoc))
 		}
 		time.Sleep(time.Duration(r.Intn(40)) * time.Millisecond)
+	}
+	// a client whose only datagram is one query to a DNS server (port 53): the answer is relayed,
+	// the association closes at once - and both are reported like any other
+	if d53, err := startUDPTarget("dns53", net.IPv4(45, 69, b, 53).To4(), 53); err == nil {
+		for i := 0; i < 3; i++ {
+			k := keys[r.Intn(len(keys))]
+			dcl, err := newUDPClient(net.IPv4(198, 51, 100, byte(220+i)).To4(), 0, k)
+			if err != nil {
+				continue
+			}
+			id := nextID(c.Batch)
+			payload := mkUDPPayload(id, 1, nextSize(), nextSize())
+			pkt := ssUDP(k, randBytes(r, k.Codec().C.SaltSize), d53.addr(), payload)
+			dcl.Send(pkt, w.rig.Addr4())
+			defer dcl.Close()
+			if _, ok := d53.waitID(id, udpB); !ok {
+				c.Violation("C16/valid-datagram-neither-forwarded-nor-failed", map[string]any{"client": dcl.Addr.String(), "target": "dns53"})
+				return false
+			}
+			dcl.waitReply(k, id|1<<56, 300*time.Millisecond) // may be suppressed by the injected reply-write failure
+			cc := &c16Client{cl: dcl, sentTo: map[*udpTarget]int{}}
+			cc.expect = append(cc.expect, c16Expect{"OK", int64(len(pkt)), int64(len(payload))})
+			clients = append(clients, cc)
+			c.Count("dns_single_query_clients", 1)
+			dnsBytes += float64(len(payload))
+		}
+		defer d53.Stop()
 	}
 	// oversized replies: the packed datagram does not fit a UDP datagram / the buffer
 	for i, cc := range clients {
@@ -398,6 +485,7 @@ func c16Round(c *vk.Ctx, r *rand.Rand, round int) bool {
 	for _, v := range sumPT {
 		repP2T += v
 	}
+	tgtRecv += dnsBytes
 	if tgtRecv != repP2T {
 		c.Violation("C16/proxy-to-target-bytes-differ-from-target-sockets", map[string]any{"reported": repP2T, "received_by_targets": tgtRecv})
 		return false
@@ -439,7 +527,7 @@ func init() {
 		Parallel:    func(t string) int { return 4 },
 		Timeout:     func(t string) time.Duration { return 25 * time.Minute },
 		Run: func(c *vk.Ctx) {
-			for _, s := range []string{"client_datagram_reports_checked", "reply_reports_checked", "audits_passed", "failed_reply_reports", "oversized_replies_sent"} {
+			for _, s := range []string{"client_datagram_reports_checked", "reply_reports_checked", "audits_passed", "failed_reply_reports", "oversized_replies_sent", "dns_single_query_clients", "expiry_cycles_reported"} {
 				c.Require(s)
 			}
 			c16Run(c)
